@@ -3558,7 +3558,12 @@ class Hex(Adapter):
     """
     def _decode(self, obj, context, path):
         if isinstance(obj, int):
-            return HexDisplayedInteger.new(obj, "0%sX" % (2 * self.subcon._sizeof(context, path)))
+            try:
+                size = self.subcon._sizeof(context, path)
+            except SizeofError:
+                # subcon has no fixed size (eg. VarInt), display as many bytes as the value needs
+                size = max(1, (obj.bit_length() + 7) // 8)
+            return HexDisplayedInteger.new(obj, "0%sX" % (2 * size))
         if isinstance(obj, bytes):
             return HexDisplayedBytes(obj)
         if isinstance(obj, dict):
